@@ -132,12 +132,20 @@ macro_rules! roll1_valid_call {
             "ts_vvar" => Some($view.ts_vvar_to::<$OC, $U>($w, $mp, $out)),
             "ts_vskew" => Some($view.ts_vskew_to::<$OC, $U>($w, $mp, $out)),
             "ts_vkurt" => Some($view.ts_vkurt_to::<$OC, $U>($w, $mp, $out)),
+            "ts_vmin" => Some($view.ts_vmin_to::<$OC, $U>($w, $mp, $out)),
+            "ts_vmax" => Some($view.ts_vmax_to::<$OC, $U>($w, $mp, $out)),
+            "ts_vargmin" => Some($view.ts_vargmin_to::<$OC, $U>($w, $mp, $out)),
+            "ts_vargmax" => Some($view.ts_vargmax_to::<$OC, $U>($w, $mp, $out)),
+            "ts_vrank" => Some($view.ts_vrank_to::<$OC, $U>($w, $mp, $r.bool("pct"), $r.bool("rev"), $out)),
+            "ts_vminmaxnorm" => Some($view.ts_vminmaxnorm_to::<$OC, $U>($w, $mp, $out)),
+            "ts_vzscore" => Some($view.ts_vzscore_to::<$OC, $U>($w, $mp, $out)),
             // ROLL1-VALID-APPEND
             _ => None,
         }
     };
 }
-pub const ROLL1_VALID: &[&str] = &["ts_vsum", "ts_vmean", "ts_vewm", "ts_vwma", "ts_vstd", "ts_vvar", "ts_vskew", "ts_vkurt"];
+pub const ROLL1_VALID: &[&str] = &["ts_vsum", "ts_vmean", "ts_vewm", "ts_vwma", "ts_vstd", "ts_vvar", "ts_vskew", "ts_vkurt",
+    "ts_vmin", "ts_vmax", "ts_vargmin", "ts_vargmax", "ts_vrank", "ts_vminmaxnorm", "ts_vzscore"];
 
 /// the plain single-series entry points (T: Number)
 #[macro_export]
